@@ -36,7 +36,7 @@ STUB = ["HybridRunner scenario threads run serially (SerialThread)", "agents/mod
 ASSUMPTIONS = ["every agent of a type carries the properties x and n (the property speaks of 'that property over exactly those agents'); a third numeric property y is carried by the agents with odd ids only and is judged for presence, total, minimum and maximum over its carriers, not for its mean",
                "requested states occur at least once during the run (a state that never occurs has no column to compare)"]
 FAULT_KINDS = []
-PROBES = ["two_agent_based_managers_in_one_call", "two_scenarios_in_one_frame", "two_scenarios_with_different_recorded_times", "property_carried_by_some_agents_only", "group_with_distinct_min_max_mean", "state_empty_then_populated", "negative_and_fractional_values", "agents_deleted_mid_run",
+PROBES = ["rest_run_repopulates_the_scenario", "two_agent_based_managers_in_one_call", "two_scenarios_in_one_frame", "two_scenarios_with_different_recorded_times", "property_carried_by_some_agents_only", "group_with_distinct_min_max_mean", "state_empty_then_populated", "negative_and_fractional_values", "agents_deleted_mid_run",
           "format_df", "format_dict", "format_json", "negative_stop_time", "two_scenarios_of_a_class_path_manager"]
 EXHAUSTIVE = {"quick": False, "thorough": False}
 PTYPES = ["total", "min", "max", "mean"]
@@ -53,7 +53,7 @@ def generate(spec):
     sc = W.gen_scenario(rng, allow_zero_stop=True)
     # richer populations: the four aggregates should differ
     sc["init"] = [["a", rng.choice([2, 3, 4, 5])], ["b", rng.choice([0, 1, 3])]]
-    via = rng.choice(["direct", "bptk", "bptk", "bptk_class", "bptk_two_managers"])
+    via = rng.choice(["direct", "bptk", "bptk", "bptk_class", "bptk_two_managers", "rest_run"])
     sel = {"agents": rng.sample(["a", "b"], rng.choice([1, 2])),
            "states": rng.sample(W.STATES, rng.choice([1, 2, 3])),
            "properties": rng.sample(["x", "n"], rng.choice([0, 1, 2])),
@@ -66,6 +66,11 @@ def generate(spec):
         sc2 = W.gen_scenario(rng, allow_zero_stop=True, small=True)
         sc2["init"] = [["a", rng.choice([1, 2, 6])], ["b", rng.choice([0, 2])]]
         case["scenario2"] = sc2
+    if via == "rest_run":
+        # POST /run twice: the second request re-populates the scenario through its settings (only an "agents" block, or one
+        # with run specs as well): what it returns describes the NEW population
+        case["repopulate"] = {"agents": [["a", rng.choice([1, 2, 5, 6])], ["b", rng.choice([0, 1, 3])]],
+                              "runspecs": rng.choice([None, None, {"stoptime": sc["stop"] + 1}])}
     if via == "bptk_class":
         # a second scenario of the same manager, run in the same call
         sc2 = W.gen_scenario(rng, allow_zero_stop=True, small=True)
@@ -223,6 +228,85 @@ def execute(case):
         snaps = m.world.snaps
         rich = check_stats(res, stats, snaps)
         compared = True
+    elif case["via"] == "rest_run":
+        from BPTK_Py.server import BptkServer
+        with patches.installed(threads="serial", global_thread=True):
+            b, models = W.build_bptk([sc])
+            m = models[0]
+            app = BptkServer("c13rest", bptk_factory=lambda: b)
+            client = app.test_client()
+            res.probe("rest_run_repopulates_the_scenario")
+            q = {"scenario_managers": ["smAbm"], "scenarios": ["s0"], "agents": ["a", "b"], "agent_states": ["idle"]}
+            rich = False
+            compared = False
+
+            def series_of(body, typ):
+                node = body["smAbm"]["s0"]["agents"][typ]["idle"]
+                return {float(t): v for t, v in node.items()}
+            r1 = client.post("/run", json=q)
+            if r1.status_code != 200:
+                res.violate("C13.run-raised", {"request": 1, "status": r1.status_code, "body": r1.get_data(as_text=True)[:120]})
+            else:
+                stats = m.statistics()
+                rich = check_stats(res, stats, m.world.snaps)
+                body = r1.get_json()
+                for typ in ("a", "b"):
+                    if res.violations or not any("idle" in stats[t].get(typ, {}) for t in stats):
+                        continue
+                    try:
+                        ser = series_of(body, typ)
+                    except Exception as e:
+                        res.violate("C13.2-series-missing", {"format": "json (REST /run)", "agent": typ, "exception": type(e).__name__, "message": str(e)[:80]})
+                        break
+                    for t in sorted(stats):
+                        compared = True
+                        want = lookup(stats, t, typ, "idle")
+                        if ser.get(float(t)) is None or not close(ser[float(t)], want):
+                            res.violate("C13.2-value", {"format": "json (REST /run)", "agent": typ, "time": t, "returned": ser.get(float(t)), "statistics": float(want)})
+                            break
+            if not res.violations:
+                rp = case["repopulate"]
+                sett = {"agents": [{"name": t, "count": c} for t, c in rp["agents"]]}
+                stop2 = sc["stop"]
+                if rp.get("runspecs"):
+                    sett["runspecs"] = dict(rp["runspecs"])
+                    stop2 = rp["runspecs"]["stoptime"]
+                r2 = client.post("/run", json=dict(q, settings={"smAbm": {"s0": sett}}))
+                if r2.status_code != 200:
+                    res.violate("C13.run-raised", {"request": 2, "status": r2.status_code, "body": r2.get_data(as_text=True)[:120]})
+                else:
+                    body = r2.get_json()
+                    # the script of the first run is used up: the new agents stay idle, every recorded time counts all of them
+                    spr = round(1 / sc["dt"])
+                    times2 = [r_ + s_ * sc["dt"] for r_ in range(sc["start"], stop2 + 1) for s_ in range(spr)]
+                    for typ, cnt in rp["agents"]:
+                        if cnt == 0:
+                            continue
+                        try:
+                            ser = series_of(body, typ)
+                        except Exception as e:
+                            res.violate("C13.2-series-missing", {"format": "json (REST /run after settings.agents)", "agent": typ,
+                                                                 "exception": type(e).__name__, "message": str(e)[:80]})
+                            break
+                        got_times = sorted(ser)
+                        if [round(t, 9) for t in got_times] != [round(float(t), 9) for t in times2]:
+                            res.violate("C13.2-times", {"format": "json (REST /run after settings.agents)", "agent": typ, "got": got_times[:6], "expected": times2[:6],
+                                                        "got_len": len(got_times), "expected_len": len(times2)})
+                            break
+                        bad = [(t, v) for t, v in sorted(ser.items()) if v != cnt]
+                        compared = True
+                        if bad:
+                            res.violate("C13.2-value", {"format": "json (REST /run after settings.agents)", "agent": typ, "state": "idle", "time": bad[0][0],
+                                                        "returned": bad[0][1], "population": cnt, "settings": sett})
+                            break
+                    if not res.violations:
+                        check_stats(res, m.statistics(), m.world.snaps)
+            stats = m.statistics()
+            snaps = m.world.snaps
+            try:
+                b.destroy()
+            except Exception:
+                pass
     elif case["via"] == "bptk_two_managers":
         from checks.c12 import _session_world
         with patches.installed(threads="serial", global_thread=True):
